@@ -8,8 +8,6 @@ use crate::viol;
 use proptest::prelude::*;
 use serde::{Deserialize, Serialize};
 use serde_json::Value;
-use std::io::{Read, Write};
-use std::os::fd::FromRawFd;
 use std::path::Path;
 
 #[derive(Clone, Debug, Serialize, Deserialize)]
@@ -41,60 +39,8 @@ fn judge_plain(dir: &Path, c: &Case, obs: &mut Obs) -> Judge {
     Ok(())
 }
 
-/// Run the judge in a forked child whose RLIMIT_FSIZE makes writes beyond `limit` fail with EFBIG.
 fn judge_limited(dir: &Path, c: &Case, obs: &mut Obs) -> Judge {
-    let limit = c.fsize_limit.unwrap();
-    let mut fds = [0i32; 2];
-    if unsafe { libc::pipe(fds.as_mut_ptr()) } != 0 {
-        panic!("pipe failed");
-    }
-    let pid = unsafe { libc::fork() };
-    if pid < 0 {
-        panic!("fork failed");
-    }
-    if pid == 0 {
-        unsafe {
-            libc::close(fds[0]);
-            libc::signal(libc::SIGXFSZ, libc::SIG_IGN);
-            let rl = libc::rlimit { rlim_cur: limit, rlim_max: limit };
-            libc::setrlimit(libc::RLIMIT_FSIZE, &rl);
-        }
-        let mut o = Obs::default();
-        let res = std::panic::catch_unwind(std::panic::AssertUnwindSafe(|| judge_plain(dir, c, &mut o)));
-        let msg = match res {
-            Ok(Ok(())) => serde_json::json!({"ok": true, "nontrivial": o.nontrivial, "classes": o.classes, "shape": o.shape}),
-            Ok(Err(v)) => serde_json::json!({"ok": false, "sig": v.sig, "detail": v.detail, "nontrivial": o.nontrivial, "classes": o.classes, "shape": o.shape}),
-            Err(_) => serde_json::json!({"ok": false, "sig": "harness-panic", "detail": "judge panicked in the limited child", "classes": [], "nontrivial": false, "shape": 0}),
-        };
-        let mut w = unsafe { std::fs::File::from_raw_fd(fds[1]) };
-        let _ = w.write_all(msg.to_string().as_bytes());
-        drop(w);
-        unsafe { libc::_exit(0) };
-    }
-    unsafe { libc::close(fds[1]) };
-    let mut rd = unsafe { std::fs::File::from_raw_fd(fds[0]) };
-    let mut text = String::new();
-    let _ = rd.read_to_string(&mut text);
-    let mut status = 0;
-    unsafe { libc::waitpid(pid, &mut status, 0) };
-    let v: Value = serde_json::from_str(&text).unwrap_or(serde_json::json!({"ok": false, "sig": "harness-child", "detail": format!("limited child died (status {:#x})", status), "classes": [], "nontrivial": false, "shape": 0}));
-    obs.nontrivial = v["nontrivial"].as_bool().unwrap_or(false);
-    obs.shape = v["shape"].as_u64().unwrap_or(0);
-    for cl in v["classes"].as_array().cloned().unwrap_or_default() {
-        // classes are 'static strs in Obs: map the known ones back
-        if let Some(s) = cl.as_str() {
-            for k in KNOWN_CLASSES {
-                if *k == s {
-                    obs.class(k);
-                }
-            }
-        }
-    }
-    if v["ok"].as_bool().unwrap_or(false) {
-        Ok(())
-    } else {
-        Err(Viol::new(v["sig"].as_str().unwrap_or("?"), v["detail"].as_str().unwrap_or("?")))
-    }
+    in_limited_child(c.fsize_limit.unwrap(), obs, KNOWN_CLASSES, |o| judge_plain(dir, c, o))
 }
 
 const KNOWN_CLASSES: &[&str] = &[
